@@ -1,0 +1,5 @@
+//go:build !verif
+
+package operator
+
+func verifGate(point, id string) {}
